@@ -26,7 +26,7 @@ func VerifH_C05_assignTyped() {
 		return
 	}
 	want := types.AssignableTo(V.typ, T.typ)
-	vp.Assert("C05.assign.typed", got == want)
+	vp.Assert("C01,C02,C05.assign.typed", got == want)
 	// the same verdict is reached by a construct that asks (argument matching)
 	arg := &Element{Val: &ast.Ident{Name: "v"}, Type: V.typ}
 	got2 := true
@@ -36,7 +36,7 @@ func VerifH_C05_assignTyped() {
 		}
 	})
 	if class == vp.NoPanic {
-		vp.Assert("C05.assign.construct", got2 == want)
+		vp.Assert("C01,C02,C05.assign.construct", got2 == want)
 	}
 	vp.Cover("ALL.c05.assign.yes", got)
 	vp.Cover("ALL.c05.assign.no", !got)
@@ -89,7 +89,8 @@ func VerifH_C05_assignConst() {
 	_, all := verifUniverse("")
 	pkg := verifNewPkg()
 	k := verifUntypedKinds[vp.Choose("k", len(verifUntypedKinds))]
-	T := verifPickType("T", all)
+	// every basic target kind in both tiers (constants are symbolic, so a target costs a handful of paths)
+	T := verifPickNamed("T", all, verifConstTargets)
 	var c constant.Value
 	if k != types.UntypedNil {
 		c = verifOperandOfKind("c", k).val
@@ -112,9 +113,9 @@ func VerifH_C05_assignConst() {
 	}
 	vp.Fact("tkind", tk)
 	if want {
-		vp.Assert("C05.assignconst.complete", got)
+		vp.Assert("C02,C05.assignconst.complete", got)
 	} else {
-		vp.Assert("C05.assignconst.sound", !got)
+		vp.Assert("C01,C05.assignconst.sound", !got)
 	}
 	if !vp.Symbolic() {
 		ok, msg := verifGoAccepts(fmt.Sprintf("\nvar _ = func() { %s = %s }\n", T.name, verifUntypedSrc(k, c)))
